@@ -17,6 +17,9 @@ def block_positions(tier):
         c.phase_proofs("BlocksPos")
         from checks import layerc
         layerc.blocks(c, tier, 0.2 if tier == "quick" else 0.1, proofs=False)
+        # the inline phase computes every inline position; its model (positions included) is tied here as well,
+        # so a change of any inline position moves the code away from the model and is reported
+        layerc.inlines(c, tier, 0.2 if tier == "quick" else 0.1, proofs=False)
     return f
 
 
